@@ -56,6 +56,9 @@ func c14Join(w *mon.W, idx int) {
 			high = true
 		}
 	}
+	if n == 0 && idx&1 == 1 {
+		vals = nil
+	}
 	in := cloneWords(vals)
 	w.Op, w.A, w.B = "Join", int64(width), int64(n)
 	got := bitmap.Join(vals, width)
